@@ -129,7 +129,9 @@ def value(kind, s):
     return s
 
 
-def parse(text):
+def parse(text, lenient=False):
+    """lenient: accept an argument that starts directly after a quoted argument (`"a""b"`, `"a"b`): CMake itself accepts
+    that with a developer warning and sees two arguments (validated against cmake by C04 before it is used)"""
     toks = scan(text)
     cmds = []
     i, n = 0, len(toks)
@@ -166,6 +168,7 @@ def parse(text):
         i += 1
         args = []
         prev_arg_end = None
+        prev_kind = None
         while depth > 0:
             if i >= n:
                 raise LexError(f"unterminated argument list of {name!r}", a)
@@ -178,9 +181,9 @@ def parse(text):
                     args.append(")")
                 prev_arg_end = None
             elif k2 in ("identifier", "unquoted", "quoted", "bracket"):
-                if prev_arg_end == a2:
+                if prev_arg_end == a2 and not (lenient and prev_kind == "quoted" and k2 in ("identifier", "unquoted", "quoted")):
                     raise LexError("arguments not separated", a2)
-                args.append(value(k2, text[a2:b2])); prev_arg_end = b2
+                args.append(value(k2, text[a2:b2])); prev_arg_end = b2; prev_kind = k2
                 line += text.count("\n", a2, b2)
             elif k2 == "newline":
                 line += 1
